@@ -425,6 +425,35 @@ pub fn run(tier: Tier) -> i32 {
             }
         }
     }
+    // ---- (c) very deep single chains on one builder (counters that wrap, buffers that are capped): 70 000 times the
+    // same placement; the rendering, its length and len() are compared with the count every 1 000 steps
+    for (name, digit, on_empty) in [("put(\"0\")", b"0", true), ("push(\"3\")", b"3", false), ("push(\"0\")", b"0", false)] {
+        let r = guard(|| {
+            let mut b = DigitString::new();
+            for i in 1..=70_000usize {
+                let ok = if on_empty { b.put(digit).is_ok() } else { b.push(digit).is_ok() };
+                if !ok {
+                    return Some((i, "the operation was refused".to_string()));
+                }
+                if i % 1000 == 0 || i == 65_535 || i == 65_536 || i == 65_537 {
+                    let s = b.to_string();
+                    if b.len() != i || s.len() != i || !s.bytes().all(|c| c == digit[0]) {
+                        return Some((i, format!("len() = {}, rendering of {} characters", b.len(), s.len())));
+                    }
+                }
+            }
+            None
+        });
+        chain_steps += 70_000;
+        let bad = match r {
+            Ok(None) => None,
+            Ok(Some((i, what))) => Some(format!("after {i} operations: {what}")),
+            Err(p) => Some(format!("PANIC: {p}")),
+        };
+        if let Some(observed) = bad {
+            ctx.report(&mut acc, Violation { lang: "-".into(), entry: "digit_ops".into(), input: format!("{name} repeated 70000 times on a new builder"), threshold: None, clause: "rendering is ASCII digits and len() equals its length; leading zeros are kept; push appends".into(), expected: "after i operations: i digits".into(), observed });
+        }
+    }
     chain_steps += (starts.len() * ops.len() * CHAIN) as u64;
     acc.transitions += chain_steps;
     acc.traces += chain_steps;
